@@ -222,3 +222,20 @@ def child_after_fork(out, seconds):
         pass
     signal.signal(signal.SIGALRM, signal.SIG_DFL)
     signal.alarm(int(seconds))
+
+
+_NL = __import__("re").compile(r"(\r\n|\r|\n)")
+
+
+def pylines(text, keepends=False):
+    """Split text into lines exactly where Python source lines end (\\n, \\r\\n, \\r) - unlike
+    str.splitlines(), which also splits at form feeds and several Unicode separators."""
+    parts = _NL.split(text)
+    out = []
+    for i in range(0, len(parts), 2):
+        body = parts[i]
+        end = parts[i + 1] if i + 1 < len(parts) else ""
+        if body == "" and end == "" and i == len(parts) - 1:
+            break
+        out.append(body + end if keepends else body)
+    return out
